@@ -98,7 +98,7 @@ func buildC11(tier string, seed int64) *Family {
 		}
 	}
 	return &Family{
-		Instances: dedupInst(insts),
+		Instances: withReuse(dedupInst(insts), 1),
 		Canaries: []*vm.Instance{
 			canaryInst("H_nodeset", "a | *", "a", cfg),
 			canaryInst("H_nodeset", "//a | //@*", "//a", cfg),
